@@ -119,6 +119,17 @@ macro "rstep" : tactic =>
 /-- the model starts with an action the generated side does not perform here -/
 macro "rskip" : tactic =>
   `(tactic| (refine Refines.bind_right (fun _ _ => ?_); try simp only [*, ok_bind]))
+/-- order-insensitive step: take the first `n` actions of the model's successful run as equations
+(`bind_eq_ok`), rewrite the generated side with them — so the generated code may perform those reads in any
+order and any number of times (a C local that caches a load, or a load repeated at every use, give the same
+result) — and close with what is left of the model's run.  Sound by construction: it proves the stated `⊑`. -/
+syntax "rcrush " num : tactic
+macro_rules
+  | `(tactic| rcrush $n) => `(tactic| (
+      intro _ hv
+      iterate $n (obtain ⟨_, _, hv⟩ := bind_eq_ok hv)
+      simp only [*, ok_bind, pure_bind', bind_assoc]
+      try exact hv))
 /-- as many `rstep`s as possible, then reflexivity -/
 macro "rsteps" : tactic => `(tactic| (repeat' (first | exact Refines.refl _ | rstep)))
 
